@@ -61,6 +61,7 @@ def main():
     harness = []
     ran = nontrivial = 0
     skipped = [0]
+    second_runs = [0]
     famc = {}
     t0 = time.time()
     deadline = t0 + float(job.get("max_s", 1e9))
@@ -78,30 +79,40 @@ def main():
         if time.time() > deadline:
             stopped_at = idx
             break
-        os.pwrite(pfd, b"%-15d\n" % idx, 0)
-        wd[1] = time.time()
-        wd[0] = idx
-        P.set_place(C.place_of(case))
+        place = C.place_of(case)
+        if place is not None:
+            places = (place,)
+        elif job.get("place"):
+            places = (job["place"],)                       # replay of one placement
+        else:
+            places = ("E", "S") if job.get("deep") else ("E",)
         calls0 = P.TOTAL[0]
-        try:
-            out = fam.run(case)
-        except (C.HarnessBug, C.G.GuardError) as e:
-            harness.append("case %r: %s: %s" % (case, type(e).__name__, e))
-            out = "harness"
-        except MemoryError:
-            out = "exc:MemoryError"
-        except Exception as e:  # noqa  (Python exceptions are legal outcomes)
-            site = exc_site(e)
-            name = type(e).__name__
-            out = "exc:" + name
-            if site == "?" or name in ("NameError", "UnboundLocalError", "ImportError", "ModuleNotFoundError"):
-                import traceback
-                harness.append("case %r: exception outside the library: %s" % (case, traceback.format_exc()[-600:]))
-            else:
-                k = "%s|%s|%s" % (grp, name, site)
-                if k not in excs:
-                    excs[k] = [0, str(e)[:120], list(case)]
-                excs[k][0] += 1
+        for sub, place in enumerate(places):
+            os.pwrite(pfd, b"%-12d %s\n" % (idx, place.encode()), 0)
+            wd[1] = time.time()
+            wd[0] = idx
+            P.set_place(place)
+            try:
+                out = fam.run(case)
+            except (C.HarnessBug, C.G.GuardError) as e:
+                harness.append("case %r: %s: %s" % (case, type(e).__name__, e))
+                out = "harness"
+            except MemoryError:
+                out = "exc:MemoryError"
+            except Exception as e:  # noqa  (Python exceptions are legal outcomes)
+                site = exc_site(e)
+                name = type(e).__name__
+                out = "exc:" + name
+                if site == "?" or name in ("NameError", "UnboundLocalError", "ImportError", "ModuleNotFoundError"):
+                    import traceback
+                    harness.append("case %r: exception outside the library: %s" % (case, traceback.format_exc()[-600:]))
+                else:
+                    k = "%s|%s|%s" % (grp, name, site)
+                    if k not in excs:
+                        excs[k] = [0, str(e)[:120], list(case)]
+                    excs[k][0] += 1
+            if sub:
+                second_runs[0] += 1
         ran += 1
         famc[case[0]] = famc.get(case[0], 0) + 1
         if P.TOTAL[0] != calls0:
@@ -116,10 +127,11 @@ def main():
             findings.append({"idx": idx, "kind": out.split(":")[0], "detail": out})
         k = grp + "|" + out
         outcomes[k] = outcomes.get(k, 0) + 1
-        if ran % 1500 == 0:
+        if ran % 400 == 0:
             checkpoint(job, P, idx + 1, ran, nontrivial, famc, outcomes, excs, findings, harness, len(cases), t0, True, None, skipped[0])
     wd[0] = None
     os.pwrite(pfd, b"%-15s\n" % b"done", 0)
+    P.STATS["second_placement_runs"] = second_runs[0]
     os.close(pfd)
     checkpoint(job, P, len(cases) if stopped_at is None else stopped_at, ran, nontrivial, famc, outcomes, excs, findings,
                harness, len(cases), t0, False, stopped_at, skipped[0])
